@@ -1078,6 +1078,12 @@ func (e *Engine) resolveCallee(st *State, f *Frame, c *ssa.CallCommon, ins ssa.I
 		if lz, ok := recv.v.(*LazyIface); ok {
 			return &FuncVal{builtin: "$lazyinvoke:" + c.Method.FullName(), recv: lz}, args, stCont
 		}
+		if nt, ok := recv.t.(*types.Pointer); ok && c.Method.Name() == "Error" {
+			if n, ok := nt.Elem().(*types.Named); ok && strings.HasPrefix(n.Obj().Name(), "sentinel$") {
+				// Error() of a package-level error sentinel (context.Canceled ...): an opaque string
+				return &FuncVal{builtin: "$sentinelError"}, args, stCont
+			}
+		}
 		fn := e.prog.LookupMethod(recv.t, c.Method.Pkg(), c.Method.Name())
 		if fn == nil {
 			unsupp("no method %s on %s", c.Method.Name(), recv.t)
@@ -1134,6 +1140,9 @@ func (e *Engine) invoke(st *State, fv *FuncVal, args []Value, resultTo ssa.Value
 	if fv.builtin != "" {
 		if strings.HasPrefix(fv.builtin, "$lazyinvoke:") {
 			return e.lazyInvoke(st, fv, args, ins, setResult)
+		}
+		if fv.builtin == "$sentinelError" {
+			return setResult(e.opaqueStr(st, "sentinel-error"))
 		}
 		return e.doBuiltin(st, f, fv.builtin, args, ins, setResult)
 	}
